@@ -99,10 +99,10 @@ def trace_validation(ctx, cov):
 
 def run(ctx):
     if ctx.quick:
-        plan = [("mc/SymRes_c03_quick.cfg", 900, 4), ("mc/SymRes_c03_roots.cfg", 900, 2)]
+        plan = [("mc/SymRes_c03_quick.cfg", 900, 5), ("mc/SymRes_c03_roots.cfg", 900, 3)]
     else:
-        plan = [("mc/SymRes_c03_quick.cfg", 900, 1), ("mc/SymRes_c03_roots.cfg", 900, 1),
-                ("mc/SymRes_c03_weak.cfg", 2400, 8), ("mc/SymRes_c03_chain.cfg", 1200, 3)]
+        plan = [("mc/SymRes_c03_quick.cfg", 900, 2), ("mc/SymRes_c03_roots.cfg", 900, 1),
+                ("mc/SymRes_c03_weak.cfg", 2400, 16), ("mc/SymRes_c03_chain.cfg", 1200, 6)]
     cov = symres.run_plan(ctx, PROP, plan, ASPECTS, "both", oracle_known, skip_load_divergent=OWN)
     trace_validation(ctx, cov)
     return {
